@@ -230,6 +230,9 @@ func (c *ctx) fill(v reflect.Value, exact bool) {
 		if c.rnd.Intn(3) > 0 {
 			v.SetBytes(c.bytesN(1 + c.rnd.Intn(12)))
 		}
+		if c.rnd.Intn(40) == 0 {
+			v.SetBytes(c.bytesN(c.pick(255, 256, 257, 300, 600)))
+		}
 		return
 	case t == tRaw:
 		return
@@ -450,7 +453,11 @@ func drvBJSON(c *ctx) error {
 		}
 	case "text":
 		for i := 0; i < c.n; i++ {
-			c.emit(hexEvent(c, c.bytesN(c.rnd.Intn(24))))
+			hn := c.rnd.Intn(24)
+			if c.rnd.Intn(10) == 0 { // long values: tokens and vendor extensions are not bounded by the frame size
+				hn = c.pick(127, 128, 255, 256, 257, 300, 512, 1000, 1024, 4096)
+			}
+			c.emit(hexEvent(c, c.bytesN(hn)))
 			ts := time.Unix(c.rnd.Int63n(4102444800), int64(c.pick(0, 1, 500000000, 999999999))).In(time.FixedZone("", c.pick(0, 3600, -18000, 19800, 45*60, 1172, -3599, 30, 86399-3600*10)))
 			c.emit(timeEvent(ts))
 			if i%8 == 0 {
